@@ -198,14 +198,16 @@ def freeze(obj, _depth=0, _seen=None):  # noqa: C901, PLR0911
     if isinstance(obj, (bytearray, memoryview)):
         return (t.__name__, bytes(obj))
     if isinstance(obj, io.BytesIO):
-        return ("BytesIO", obj.getvalue(), obj.tell())
+        return ("BytesIO", obj.getvalue())     # the stream position is not part of the value (dumping a stream reads it)
     if isinstance(obj, re.Pattern):
         return ("Pattern", obj.pattern, obj.flags)
     f = model_fields(obj)
     if f is not None:
         return ("model", t.__name__, tuple((k, freeze(v, _depth + 1, _seen)) for k, v in f.items()))
     d = getattr(obj, "__dict__", None)
-    if isinstance(d, dict) and not isinstance(obj, type) and not callable(obj):
+    if isinstance(d, dict) and not isinstance(obj, type) and not callable(obj) and (t.__module__ or "").startswith(("vlib", "__main__")):
+        # only classes defined by the checks are walked attribute-wise: stdlib objects (ipaddress, pathlib, ...) cache derived
+        # attributes lazily in __dict__, which is not a mutation of their value
         return ("obj", t.__name__, tuple((k, freeze(v, _depth + 1, _seen)) for k, v in d.items() if not k.startswith("_sa_")))
     try:
         return ("repr", t.__name__, repr(obj))
